@@ -477,6 +477,8 @@ def answered_scenario(shape, ttl=3.0):
                     r = {'ok': smppref.header(0x80000004, 0, seq, b'id77\x00'),
                          'reject_cstring': smppref.header(0x80000004, 0x0B, seq, b'\x00'),
                          'reject_bare': smppref.header(0x80000004, 0x58, seq),
+                         'reject_vendor': smppref.header(0x80000004, 0x400, seq),     # SMSC vendor specific error (0x400-0x4FF)
+                         'reject_reserved': smppref.header(0x80000004, 0x7FFFFFFF, seq),
                          'nack': smppref.header(0x80000000, 3, seq)}[shape]
                     conn.send(r, delay=0.5)
                 elif cmd == 0x15:
@@ -610,7 +612,7 @@ def run(ctx):
         msg = oracle_reconnect_sweep(obs, ttl)
         if msg:
             ctx.violation(msg + f' (keep-alive every {ka} s)', {'function': 'reconnect_sweep', 'ttl': ttl, 'outage': outage, 'keepalive': ka})
-    for shape in ('ok', 'reject_cstring', 'reject_bare', 'nack'):
+    for shape in ('ok', 'reject_cstring', 'reject_bare', 'reject_vendor', 'reject_reserved', 'nack'):
         obs = answered_scenario(shape)
         ctx.traces += 1
         ctx.case(('answered', shape), nontrivial=True)
